@@ -256,6 +256,9 @@ func buildConfig(c CaseCfg, cfgRec *Recorder) *eval.Config {
 				return nil, fmt.Errorf("harness: the OperatorMap entry under the built-in name %q was called", name)
 			}
 		}
+		// ... and ConstantMap entries under the names of the boolean literals: true and false are the built-in booleans
+		cc.ConstantMap["true"] = int64(1)
+		cc.ConstantMap["false"] = "no"
 	}
 	cc.StatelessOperators = append(cc.StatelessOperators, c.Stateless...)
 	for k, v := range c.Costs {
